@@ -54,6 +54,12 @@ class IrGenerator:
             temp_replacement = IdMap()
 
             def find_temporaries(obj, access: AccessFlags):
+                # always expressions are emitted outside of the process,
+                # variables of the process do not exist there
+                assert not isinstance(
+                    obj, Variable
+                ), f"always expression cannot use variables (found {obj._root})"
+
                 if isinstance(obj, Temporary):
                     parent = obj._root
 
